@@ -244,7 +244,12 @@ retry_fetch_lv:
         }
         // root was fetched correctly.
         // root = lv; advance key; goto retry_find_border;
-        traverse_key_view.remove_prefix(sizeof(key_slice_type));
+        if (traverse_key_view.size() > sizeof(key_slice_type)) {
+            traverse_key_view.remove_prefix(sizeof(key_slice_type));
+        } else {
+            // right-to-left from INF: the start key is ignored and may be shorter than a slice
+            traverse_key_view = std::string_view{};
+        }
         ctx->stack(key_tup, root, target_border, cmp_to_end,
                    {v_at_fb, permutation(target_border->get_permutation().get_body()), 0});
         if (cmp_to_end == 0) {
